@@ -649,6 +649,8 @@ struct OracleStats {
     nontrivial_cases: u64,
     failures: Vec<String>,
     hist: std::collections::BTreeMap<String, u64>,
+    /// (case number, key) of every failure (written to `<impl>.failcases`)
+    fail_cases: Vec<(usize, String)>,
 }
 
 fn fmt_rv(v: &RV) -> String {
@@ -681,6 +683,7 @@ fn oracle_case(case: &Case, obs: &[&str], ids: &[&str], st: &mut OracleStats, ca
         // keep the first few failures of every distinct key (so that a rare key is never hidden
         // behind a frequent one) and count all of them per key
         let key = msg.split(' ').next().unwrap_or("key=?").to_string();
+        st.fail_cases.push((case_no, key.clone()));
         let c = st.hist.entry(format!("fail:{}", key)).or_default();
         *c += 1;
         if *c <= 3 {
@@ -791,6 +794,18 @@ fn oracle_case(case: &Case, obs: &[&str], ids: &[&str], st: &mut OracleStats, ca
                         // cycle's head had already been finalised returns its body's value over the
                         // finalised results instead of its own fallback (known finding C13/kf1)
                         let mut key = "cyclic-value";
+                        // known finding C12/kf2: a fixpoint participant keeps an incomplete
+                        // (one-iteration-old) dependency set, is re-validated in a later revision
+                        // and returns the value it had under EARLIER inputs (which then also flows into
+                        // its readers); only requests in a LATER revision than the first successful
+                        // one can be affected — first-revision evaluations are never excused
+                        if main.starts_with("v=")
+                            && matches!(want, Outcome::Val(_) | Outcome::ValOrPanicCycle(_))
+                            && fb_seen_in_earlier_rev
+                            && !case.prog.nodes.iter().any(|n| n.0 == Kind::Fb)
+                        {
+                            key = "fix-participant-stale-after-revalidation";
+                        }
                         if case.prog.nodes[*q].0 == Kind::Fb && main.starts_with("v=") && fb_seen_in_earlier_rev {
                             // (the wrong participant value also propagates to its readers, so any
                             // value mismatch of a fallback program in a later revision has this key;
@@ -901,6 +916,10 @@ fn main() {
                 println!("GEN cases={} distinct={}", total, seen.len());
                 return;
             }
+            if let Some(fl) = args.get("--flavours") {
+                let v: Vec<u8> = fl.split(',').filter_map(|x| x.parse().ok()).collect();
+                CYCLE_FLAVOURS.with(|f| *f.borrow_mut() = v);
+            }
             let p = Profile::parse(args.get("--profile").unwrap_or("core")).expect("profile");
             for _ in 0..args.num("--cases", 100) {
                 let c = gen_case(&mut r, p);
@@ -927,7 +946,7 @@ fn main() {
             let obs: Vec<&str> = imp.lines().collect();
             let idtext = std::fs::read_to_string(format!("{}.ids", args.get("--impl").unwrap())).unwrap_or_default();
             let idv: Vec<&str> = idtext.lines().collect();
-            let mut st = OracleStats { cases: 0, gets: 0, nontrivial_cases: 0, failures: vec![], hist: Default::default() };
+            let mut st = OracleStats { cases: 0, gets: 0, nontrivial_cases: 0, failures: vec![], hist: Default::default(), fail_cases: vec![] };
             let mut pos = 0;
             for (n, case) in cases.iter().enumerate() {
                 let header = case.to_lines().len() - case.ops.len();
@@ -938,6 +957,13 @@ fn main() {
             }
             for f in st.failures.iter().filter(|f| !f.is_empty()).take(20) {
                 println!("ORACLE-FAIL {}", f);
+            }
+            {
+                let mut s = String::new();
+                for (c, k) in &st.fail_cases {
+                    writeln!(s, "{} {}", c, k).unwrap();
+                }
+                let _ = std::fs::write(format!("{}.failcases", args.get("--impl").unwrap()), s);
             }
             println!(
                 "ORACLE-SUMMARY cases={} gets={} nontrivial_cases={} failures={} hist={:?}",
